@@ -14,11 +14,17 @@ trip itself, for every text:
     literal, is read back as that text and exactly its characters are consumed;
   * `description_roundtrip` — every text printed between double quotes with `"` and `\` escaped is read
     back as that text.
-`pp_parse` (every normal-form tree printed with minimal parentheses parses back to itself: the
-operator ladder) is the open growth target.
+  * `ladder_roundtrip` (`Proofs/Ladder.lean`) — the operator ladder: every normal-form tree over
+    literals of regular characters, nonterminals and commands, built with sequence, `|`, `||`, `[ ]`
+    and postfix `...`, printed with the minimum of parentheses the precedences require (`Parse.pp`),
+    is read back by `fallback` as the same tree up to spans — precedence, associativity, the
+    `|`-versus-`||` look-ahead, and the back-tracking of the sequence loop, for every tree.
+Open: the same with juxtaposition (`.sub`), descriptions after groups and escaped literals inside
+the ladder (the lexers' own round trips are above), and arbitrary layout between tokens.
 -/
 import Complgen.Model.Parse
 import Complgen.Proofs.Lexer
+import Complgen.Proofs.Ladder
 namespace Complgen.Props.C05
 open Complgen Complgen.Parse
 
@@ -95,5 +101,17 @@ theorem description_roundtrip (d rest : List Char) (s : PState) (hs : s.rest = '
 example : Terminates [' '] ∧ (∀ c ∈ ['a', '.', 'b'], isRegular c = true ∨ isEsc c = true) ∧
     escT 0 ['a', '.', 'b'] = ['a', '.', 'b'] ∧ escT 0 ['.', '.', '.'] = ['.', '.', '\\', '.'] := by
   refine ⟨.inr ⟨' ', [], rfl, by decide, by decide, by decide⟩, by decide, by decide, by decide⟩
+
+/-- **The operator ladder round-trips**: a normal-form tree printed with minimal parentheses parses
+back to itself (up to source positions), whatever follows it that cannot continue an expression. -/
+theorem ladder_roundtrip (e : Expr) (hnf : NF e) (rest : List Char) (hrest : Follows rest) (s : PState)
+    (hs : s.rest = pp 0 e ++ rest) (fuel : Nat) (hfuel : fuelNeeded e ≤ fuel) :
+    ∃ e', fallback fuel s = some (s.adv (pp 0 e).length, e') ∧ e'.eraseSpans = e.eraseSpans :=
+  fallback_roundtrip e hnf rest hrest s hs fuel hfuel
+
+/-- what may follow: the end of the input, `;`, `)`, `]` -/
+theorem ladder_followers (r : List Char) :
+    Follows [] ∧ Follows (';' :: r) ∧ Follows (')' :: r) ∧ Follows (']' :: r) :=
+  ⟨Follows_nil, Follows_semicolon r, Follows_rparen r, Follows_rbracket r⟩
 
 end Complgen.Props.C05
